@@ -17,7 +17,14 @@ import "github.com/akrylysov/pogreb/fs"
 
 var walPerms = [][3]uint64{{1, 2, 3}, {1, 3, 2}, {2, 1, 3}, {2, 3, 1}, {3, 1, 2}, {3, 2, 1}}
 
-func hWal(maxRecs int, afterOp bool) {
+// sequence-id bases: the three sequence ids are base+1..base+3
+// (65536 and 2^32 are crossed: sequence ids are 64-bit and never re-used)
+var walBases = []uint64{0, 65533, 1<<32 - 2}
+
+// mode 0: compaction flow (C05); 1: backup flow (C12); 2: clean-restart flow (C02)
+func hWal(maxRecs int, afterOp bool) { hWalM(maxRecs, afterOp, 0, 0) }
+
+func hWalM(maxRecs int, afterOp bool, mode int, base uint64) {
 	n := 2
 	vlen := 2
 	rec := 10 + 8 + vlen
@@ -54,7 +61,7 @@ func hWal(maxRecs int, afterOp bool) {
 				refApply(r, 1, k, nil)
 			}
 		}
-		vWriteFile(fsys, segmentName(uint16(id), seq), refHeader(), body)
+		vWriteFile(fsys, segmentName(uint16(id), base+seq), refHeader(), body)
 	}
 	vWriteFile(fsys, lockName)
 	opts := smallOpts(fs.Mem, 2, rec)
@@ -66,6 +73,15 @@ func hWal(maxRecs int, afterOp bool) {
 	checkReads(db, r, "WAL.recovered-state-is-the-replay")
 	vCheckLogInvariant(db, "WAL.recovered")
 	vSegmentsWellFormed(db, "WAL.recovered")
+	vAssert(db.datalog.maxSequenceID == base+3, "WAL.recovered.maxSequenceID")
+	if mode == 1 {
+		hWalBackup(db, r, rec, dir)
+		return
+	}
+	if mode == 2 {
+		hWalRestart(db, r, rec, dir, base)
+		return
+	}
 	cr, err := db.Compact()
 	vAssert(err == nil, "WAL.compact.err")
 	if cr.CompactedSegments > 0 {
@@ -79,6 +95,7 @@ func hWal(maxRecs int, afterOp bool) {
 		if c < 2*n {
 			op, k := decodeOp(c, n)
 			applyOp(db, r, op, k, vlen, "WAL.after")
+			vCheckLogInvariant(db, "WAL.after.in-session")
 		}
 	}
 	// process death right here
@@ -104,3 +121,63 @@ func hWal(maxRecs int, afterOp bool) {
 
 func H_C05_wal()   { hWal(2, false) }
 func H_C05_wal_t() { hWal(2, true) }
+
+// backup flow: the copy of a recovered database with arbitrary id/sequence
+// layout opens and holds the same contents; again after a compaction of the source.
+func hWalBackup(db *DB, r *refMap, rec int, dir string) {
+	for round := 0; round < 2; round++ {
+		bdir := "walbk0"
+		if round == 1 {
+			bdir = "walbk1"
+		}
+		vAssert(db.Backup(bdir) == nil, "WAL.backup.err")
+		checkReads(db, r, "WAL.backup.source-unaffected")
+		bk, err := Open(bdir, smallOpts(fs.Mem, 2, rec))
+		vAssert(err == nil, "WAL.backup.copy-opens")
+		if err != nil {
+			return
+		}
+		checkReads(bk, r, "WAL.backup.copy-equals-source")
+		checkItems(bk, r, "WAL.backup.copy")
+		vCheckLogInvariant(bk, "WAL.backup.copy")
+		vAssert(bk.Close() == nil, "WAL.backup.copy-closes")
+		if round == 0 {
+			_, err := db.Compact()
+			vAssert(err == nil, "WAL.backup.compact")
+			applyOp(db, r, 0, 1, 2, "WAL.backup.put")
+		}
+	}
+	vCover("WAL.backup.done")
+}
+
+// clean-restart flow: Close + Open gives the same contents without recovery, the
+// log goes on with the next sequence id, and a second clean restart still works.
+func hWalRestart(db *DB, r *refMap, rec int, dir string, base uint64) {
+	sub := db.opts.FileSystem
+	for round := 0; round < 2; round++ {
+		vAssert(db.Close() == nil, "WAL.restart.close")
+		var err error
+		db, err = Open(dir, smallOpts(fs.Mem, 2, rec))
+		vAssert(err == nil, "WAL.restart.clean-open-succeeds")
+		if err != nil {
+			return
+		}
+		for _, nm := range vDirNames(sub) {
+			vAssert(!vHasSuffix(nm, recoveryBackupExt), "WAL.restart.clean-open-runs-no-recovery")
+		}
+		checkReads(db, r, "WAL.restart.contents")
+		vCheckLogInvariant(db, "WAL.restart")
+		// three more records: at least one rollover to a segment with a new sequence id
+		applyOp(db, r, 0, 0, 2, "WAL.restart.put")
+		applyOp(db, r, 0, 1, 2, "WAL.restart.put")
+		applyOp(db, r, 0, 0, 2, "WAL.restart.put")
+		vAssert(db.datalog.maxSequenceID > base+3, "WAL.restart.sequence-ids-keep-growing")
+	}
+	checkReads(db, r, "WAL.restart.final")
+	vCover("WAL.restart.done")
+}
+
+// case = permutation (6) x sequence-id base (3); one record per segment after the first
+func H_C12_wal()    { c := vCase(); hWalM(1, false, 1, walBases[(c/6)%3]) }
+func H_C02_wal()    { c := vCase(); hWalM(1, false, 2, walBases[(c/6)%3]) }
+func H_C05_walseq() { c := vCase(); hWalM(1, false, 0, walBases[1+(c/6)%2]) }
